@@ -206,8 +206,10 @@ class SpecGen:
                 "distinct": False, "where": self.crit([s], 1) if self.r.random() < 0.6 else None, "order": [], "limit": None, "offset": None, "with": None}
 
     def correlated_sub(self, outer):
-        t = self.r.choice([x for x in TABLES if x != outer.name] or list(TABLES))
-        s = Src(t, "i%s" % t if self.r.random() < 0.4 else None)
+        # another table, or an aliased second copy of the outer table itself (keep-the-first-per-group shapes)
+        t = self.r.choice(list(TABLES)) if (outer.alias is None and outer.sub is None and outer.cte is None and self.r.random() < 0.25) \
+            else self.r.choice([x for x in TABLES if x != outer.name] or list(TABLES))
+        s = Src(t, "i%s" % t if (t == outer.name or self.r.random() < 0.4) else None)
         w = ("cmp", "=", ("col", s.name, "a", s), ("col", outer.name, "a", outer))
         if self.r.random() < 0.5:
             w = ("and", w, self.crit([s], 1))
